@@ -79,7 +79,7 @@ package object_patch
 // (handleRunHook returns before ExecuteOperations; see its contract).
 //@ func ParseOperations
 //@   prop C13
-//@   modifies lastSpecs, lastDecodeErr
+//@   modifies lastSpecs, lastDecodeErr, nDocs, docLog, lastDecErr
 //@   ensures [decode-error] lastDecodeErr != nil ==> result1 != nil && len(result0) == 0
 //@   ensures [all-or-nothing] lastDecodeErr == nil ==> (result1 == nil) == forall(j, 0, len(lastSpecs), SpecValid(lastSpecs[j]))
 //@   ensures [faithful]     result1 == nil ==> len(result0) == len(lastSpecs) && forall(j, 0, len(result0), result0[j] == opOf(lastSpecs[j]))
